@@ -32,6 +32,16 @@ empty @is_you() { write(gd); write(gc); write(gb); write(ga); write(gg[1]); writ
 ''',
 ]
 
+# pairs that only differ if one compilation leaves something behind for the next one in the same process
+LEAKY = [
+    'empty write(const int[] a) { write("ints"); write(a.length); }\nempty writeln(bool[] m) { write("bools"); }\nempty sleep(string s) { write(s); }\nempty @is_you() { write([2, 7, 1]); bool[] m = [true]; writeln(m); sleep("z"); }\n',
+    'empty @is_you() { write([2, 7, 1]); writeln([\'a\', \'b\']); write("s" is byte[]); sleep(1); }\n',
+    'int helper(int x) { return x + 1; }\nint g = 5;\nempty @is_you() { write(helper(g)); string s = "shared"; write(s); }\n',
+    'int helper(byte x) { return x - 1; }\nbyte g = \'q\';\nempty @is_you() { write(helper(g)); string s = "shared"; write(s); write("other"); }\n',
+    'empty write(int[] x) { write(x.length); }\nempty @is_you() { int[] v = [1, 2]; write(v); }\n',
+    'empty @is_you() { int[] v = [1, 2]; const int[] c = [3]; write(v[0]); write(c[0]); write([4, 5]); }\n',
+]
+
 WORKER = r'''
 import sys, json, hashlib
 sys.path.insert(0, %r)
@@ -41,8 +51,12 @@ from hidc.ast import Environment
 from hidc.codegen import CodeGen
 from hidc.errors import CompilerError
 srcs = json.load(open(sys.argv[1]))
-out = []
-for src, w, stack, unchecked in srcs:
+order = list(range(len(srcs)))
+if len(sys.argv) > 2 and sys.argv[2] == 'reverse':
+    order.reverse()
+out = [None] * len(srcs)
+for k in order:
+    src, w, stack, unchecked = srcs[k]
     res = []
     for rep in range(2):
         try:
@@ -52,7 +66,7 @@ for src, w, stack, unchecked in srcs:
             res.append(hashlib.sha256(b"\n".join(lines)).hexdigest())
         except CompilerError as e:
             res.append("ERR " + type(e).__name__)
-    out.append(res)
+    out[k] = res
 print(json.dumps(out))
 '''
 
@@ -68,6 +82,7 @@ def run(ctx):
                '; '.join('%s: for ... in %s' % x for x in new[:4]))
     # (a) byte-identical output across processes and hash seeds
     srcs = [[d, 2, 100, False] for d in ORDER_SENSITIVE]
+    srcs += [[d, 2, 100, False] for d in LEAKY]
     for i in range(40 if q else 300):
         src = gen.gen_program(ctx.seed * 7919 + i, ALL + ['tt'])
         srcs.append([src, rng.choice([2, 3, 4, 8]), rng.choice([64, 300]), rng.random() < 0.3])
@@ -80,9 +95,11 @@ def run(ctx):
     json.dump(srcs, open(path, 'w'))
     seeds = ['0', '1'] + [str(rng.randrange(2, 2 ** 31)) for _ in range(3)]
     outs = []
-    for s in seeds:
+    for k, s in enumerate(seeds):
         env = dict(os.environ, PYTHONHASHSEED=s, PYTHONPATH=REPO)
-        p = subprocess.run(['/venv/bin/python', '-c', WORKER % REPO, path], stdout=subprocess.PIPE, stderr=subprocess.PIPE, env=env, timeout=1800)
+        # every second process compiles the list in reverse order: state leaking from one compilation into the next one in
+        # the same process (module-level tables, caches, counters) then changes what some program compiles to
+        p = subprocess.run(['/venv/bin/python', '-c', WORKER % REPO, path] + (['reverse'] if k % 2 else []), stdout=subprocess.PIPE, stderr=subprocess.PIPE, env=env, timeout=1800)
         if p.returncode != 0:
             ctx.oblige('reproducibility worker ran (PYTHONHASHSEED=%s)' % s, False, p.stderr.decode()[-300:])
             return
